@@ -118,6 +118,7 @@ type Sched struct {
 	MaxTicks    int  // consecutive idle ticker firings allowed at quiescence
 	EarlyTimers bool // one-shot timers may fire before quiescence (environment alternative)
 	MaxSteps    int
+	onDeadlock  func()
 
 	ticks        int
 	lastTickStep int
@@ -143,6 +144,9 @@ type Config struct {
 	EarlyTimers bool
 	MaxSteps    int
 	Verbose     bool
+	// OnDeadlock runs (on the thread that detected it, before anything is
+	// killed) when no transition is enabled; it must not call shim operations.
+	OnDeadlock func()
 }
 
 // Run executes body as thread 0 under the scheduler following cfg.Prefix, then
@@ -150,7 +154,7 @@ type Config struct {
 func Run(cfg Config, body func()) *Sched {
 	s := &Sched{prefix: cfg.Prefix, ack: make(chan struct{}), finished: make(chan struct{}),
 		closed: map[uintptr]bool{}, exited: make(chan struct{}, 4096),
-		MaxTicks: cfg.MaxTicks, EarlyTimers: cfg.EarlyTimers, MaxSteps: cfg.MaxSteps, Verbose: cfg.Verbose}
+		MaxTicks: cfg.MaxTicks, EarlyTimers: cfg.EarlyTimers, MaxSteps: cfg.MaxSteps, Verbose: cfg.Verbose, onDeadlock: cfg.OnDeadlock}
 	if s.MaxTicks == 0 {
 		s.MaxTicks = 4
 	}
@@ -451,6 +455,9 @@ func (s *Sched) schedule(t *Thread, exiting bool) {
 			}
 			if len(en) == 0 {
 				s.Deadlock = true
+				if s.onDeadlock != nil {
+					s.onDeadlock()
+				}
 				s.stop(t, exiting)
 				return
 			}
@@ -596,6 +603,16 @@ func Quiesce() {
 		return
 	}
 	s.point(t, opQuiesce, nil)
+}
+
+// Yield is a pure scheduling point: the caller stays enabled, other threads may
+// run first (models "this call takes time", e.g. a dial in flight).
+func Yield() {
+	s, t := cur()
+	if s == nil || s.killing {
+		return
+	}
+	s.point(t, opResume, nil)
 }
 
 // Choose is an environment decision with n alternatives; 0 is the default.
